@@ -1,5 +1,6 @@
 ID = "C20"
 CFG = {
+    "fuzz": [("cli_args", 300)],
     "level": "exploration",
     "engine": "E1 vh",
     "package": "c20", "bin": "c20",
